@@ -1,4 +1,6 @@
+mod backoff;
 mod gate;
+mod reconnect;
 mod util;
 use util::*;
 
@@ -15,6 +17,8 @@ fn main() {
         for c in read_cases(path) {
             let r = match c.first() {
                 Some(14) => gate::run_case(&rt, &base, &c[1..]),
+                Some(19) if c.get(1) == Some(&1) => backoff::run_case(&c[2..]),
+                Some(19) if c.get(1) == Some(&2) => reconnect::run_case(&c[2..]),
                 _ => vec![999_999],
             };
             out.emit(&c, &r);
@@ -24,6 +28,8 @@ fn main() {
     }
     match which.as_str() {
         "gate" => gate::generate(&a, &mut out),
+        "backoff" => backoff::generate(&a, &mut out),
+        "reconnect" => reconnect::generate(&a, &mut out),
         _ => {
             eprintln!("usage: vh-app <gate|...> [--seed S] [--n N] [--mode M] [--replay FILE]");
             std::process::exit(2);
